@@ -36,6 +36,9 @@ pub enum KOp {
     /// Replica variant only: the replica is handed the owner's full current state through the
     /// external catch-up entry point.
     ReplicaCatchUp,
+    /// Same, but the state travels as a serde snapshot (JSON), as an application would ship it:
+    /// statuses survive, the instants a grace period is counted from restart at deserialization.
+    ReplicaCatchUpSerde,
 }
 
 pub fn advance_amount(kind: u8, grace_ns: u64) -> u64 {
@@ -387,9 +390,24 @@ pub fn exec_kv(case: &KvCase, tally: &mut Tally, prop: &str) -> Result<(), Failu
                         }
                     }
                 }
-                KOp::ReplicaCatchUp => {
+                KOp::ReplicaCatchUp | KOp::ReplicaCatchUpSerde => {
+                    let via_serde = matches!(op, KOp::ReplicaCatchUpSerde);
                     if let Some(r) = replica.as_mut() {
-                        let snapshot: Vec<(String, chitchat::VersionedValue)> = owner.self_node_state().key_values_including_deleted().map(|(k, vv)| (k.to_string(), vv.clone())).collect();
+                        let snapshot: Vec<(String, chitchat::VersionedValue)> = if via_serde {
+                            let snap = owner.state_snapshot();
+                            let back: Option<chitchat::ClusterStateSnapshot> = serde_json::to_string(&snap).ok().and_then(|j| serde_json::from_str(&j).ok());
+                            let Some(back) = back else {
+                                tally.discard("snapshot does not survive serde");
+                                return Ok(());
+                            };
+                            let Some(ns) = back.node_states.iter().find(|ns| *ns.chitchat_id() == owner_id) else {
+                                tally.discard("owner missing from its own snapshot");
+                                return Ok(());
+                            };
+                            ns.key_values_including_deleted().map(|(k, vv)| (k.to_string(), vv.clone())).collect()
+                        } else {
+                            owner.self_node_state().key_values_including_deleted().map(|(k, vv)| (k.to_string(), vv.clone())).collect()
+                        };
                         let (omax, ogc) = (m.max, m.gc);
                         if let Err(p) = guard(|| r.reset_node_state_if_update(&owner_id, snapshot.into_iter(), omax, ogc)) {
                             // never-panics is C18's statement
@@ -409,7 +427,11 @@ pub fn exec_kv(case: &KvCase, tally: &mut Tally, prop: &str) -> Result<(), Failu
                                         next.insert(k.clone(), old.clone());
                                     }
                                     _ => {
-                                        next.insert(k.clone(), e.clone());
+                                        let mut e = e.clone();
+                                        if via_serde {
+                                            e.mark_ns = now_ns;
+                                        }
+                                        next.insert(k.clone(), e);
                                     }
                                 }
                             }
@@ -476,6 +498,7 @@ fn kop_strategy(replica: bool) -> BoxedStrategy<KOp> {
         options.push((5, Just(KOp::Sync).boxed()));
         options.push((3, Just(KOp::ReplicaGc).boxed()));
         options.push((2, Just(KOp::ReplicaCatchUp).boxed()));
+        options.push((2, Just(KOp::ReplicaCatchUpSerde).boxed()));
     }
     proptest::strategy::Union::new_weighted(options).boxed()
 }
